@@ -94,6 +94,8 @@ structure NodeCfg where
   power : Option Power := none
   startUp : Option Nat := none
   shutDown : Option Nat := none
+  /-- the node's own `node_scan_duration` (`none` = key absent) -/
+  scan : Option Nat := none
   dns : Option Ip := none
   gateway : Option Ip := none
   ip : Option Ip := none
@@ -822,7 +824,7 @@ def buildNode (d : DefaultsCfg) (n : NodeCfg) : Except Err NodeInv :=
       -- `int(node_cfg.get("start_up_duration", defaults_config.get("node_start_up_duration", 3)))` (repaired code)
       startUp := n.startUp.getD (d.nodeStartUp.getD defaultDuration),
       shutDown := n.shutDown.getD (d.nodeShutDown.getD defaultDuration),
-      scan := d.nodeScan.getD defaultScan, folderScan := d.folderScan, folderRestore := d.folderRestore,
+      scan := n.scan.getD (d.nodeScan.getD defaultScan), folderScan := d.folderScan, folderRestore := d.folderRestore,
       dns := n.dns, gateway := n.gateway, nics := powerOnNics p nics, acls := acls,
       routes := if net then n.routes.map routeOf else [],
       defaultRoute := if net then n.defaultRoute else none,
@@ -1064,7 +1066,7 @@ def declaredNode (d : DefaultsCfg) (n : NodeCfg) : NodeInv :=
     -- a duration the entry gives, else the `defaults:` section's, else 3
     startUp := n.startUp.getD (d.nodeStartUp.getD defaultDuration),
     shutDown := n.shutDown.getD (d.nodeShutDown.getD defaultDuration),
-    scan := d.nodeScan.getD defaultScan, folderScan := d.folderScan, folderRestore := d.folderRestore,
+    scan := n.scan.getD (d.nodeScan.getD defaultScan), folderScan := d.folderScan, folderRestore := d.folderRestore,
     dns := n.dns, gateway := n.gateway,
     nics := match n.kind with
       | .computer | .server | .printer =>
